@@ -3,6 +3,7 @@
 -/
 import Stevia.Proofs.StrState
 import Stevia.Generated.Facts
+import Stevia.Proofs.GenPod
 
 namespace Stevia.C15
 open Stevia
@@ -39,5 +40,17 @@ theorem load_mut_writes_through (n : Nat) (data v : ByteArray) (hv : v.size = n)
 theorem option_value (isSome : ByteArray → Bool) (inner : ByteArray) :
     ((Pod.optValue isSome inner).isSome = isSome inner) ∧
     (isSome inner = true → Pod.optValue isSome inner = some inner) := Pod.optValue_spec isSome inner
+
+/-- Tie through the translator (`Stevia.GenPod.*`, regenerated from `pod_bool.rs`, `pod_option.rs` and `lib.rs` on every
+    run): the translated conversions, `value`/`value_mut` and `load`/`load_mut` are the model's. -/
+theorem translated_pod_is_the_model (b : UInt8) (x : Bool) (isSome isNone : ByteArray → Bool) (inner data : ByteArray)
+    (n : Nat) :
+    GenPod.pod_to_bool b = Pod.boolDecode b ∧ GenPod.pod_ref_to_bool b = Pod.boolDecode b ∧
+    GenPod.bool_to_pod x = Pod.boolEncode x ∧ GenPod.bool_ref_to_pod x = Pod.boolEncode x ∧
+    GenPod.option_value isSome isNone inner = Pod.optValue isSome inner ∧
+    GenPod.option_value_mut isSome isNone inner = Pod.optValue isSome inner ∧
+    GenPod.load n data = (Pod.load n data).toOption ∧ GenPod.load_mut n data = (Pod.load n data).toOption :=
+  ⟨(GenPod.pod_to_bool_eq b).1, (GenPod.pod_to_bool_eq b).2, rfl, rfl, rfl, rfl, (GenPod.load_eq n data).1,
+   (GenPod.load_eq n data).2⟩
 
 end Stevia.C15
